@@ -221,6 +221,20 @@ fn edge_cfg(rng: &mut Rng, allow_one_counter: bool) -> Cfg {
     c
 }
 
+/// C01: a cache full of many light keys and heavy (but admissible) incoming keys, so that one
+/// admission needs more victims than one eviction sample holds.
+fn c01_seq_many_light(rng: &mut Rng, name: &'static str) -> Prepared {
+    let mut p = seq_prepare(rng, "C01", name, "C01", (12, 45));
+    let mut cfg = seq_cfg(rng);
+    cfg.keys = 8;
+    let ws: Vec<i64> = (0..8).map(|_| *rng.pick(&[1i64, 1, 1, 2])).collect();
+    let sum: i64 = ws.iter().sum();
+    cfg.weight = rng.range_i(sum - 2, sum + 1).max(6);
+    cfg.weight_fn = WeightFn::PerKey(ws);
+    rebuild_with_cfg(&mut p, cfg);
+    p
+}
+
 fn c06_seq(rng: &mut Rng, name: &'static str) -> Prepared {
     let mut p = seq_prepare(rng, "C06", name, "C06", (15, 70));
     let mut cfg = seq_cfg(rng);
@@ -867,7 +881,11 @@ seq_stratum!(c16_seq, "C16", "C16", 6, 40);
 
 pub fn plan(property: &str) -> Vec<Stratum> {
     let mut v = match property {
-        "C01" => vec![Stratum { name: "conc-observer", share: 6, gen: c01_conc }, Stratum { name: "seq-model", share: 4, gen: c01_seq }],
+        "C01" => vec![
+            Stratum { name: "conc-observer", share: 5, gen: c01_conc },
+            Stratum { name: "seq-model", share: 3, gen: c01_seq },
+            Stratum { name: "seq-many-light-keys", share: 2, gen: c01_seq_many_light },
+        ],
         "C02" => vec![Stratum { name: "conc", share: 10, gen: c02_conc }],
         "C03" => vec![Stratum { name: "conc-owners", share: 7, gen: c03_conc }, Stratum { name: "seq-long", share: 3, gen: c03_seq }],
         "C04" => vec![Stratum { name: "conc-delete-race", share: 6, gen: c04_conc }, Stratum { name: "seq-model", share: 4, gen: c04_seq }],
